@@ -147,4 +147,70 @@ theorem sumHash_fsetExt : FsetExt sumHash := by
   rw [mem_dedupNat, mem_dedupNat]
   exact h x
 
+/-! ### congruence of `==` under the in-place operations -/
+
+theorem eqList_append (C : CaseOps) (v w : Obj) (hv : eqObj C v w = true) : ∀ xs ys : List Obj,
+    eqList C xs ys = true → eqList C (xs ++ [v]) (ys ++ [w]) = true
+  | [], [], _ => by simp [eqList, hv]
+  | [], _ :: _, h => by simp [eqList] at h
+  | _ :: _, [], h => by simp [eqList] at h
+  | x :: xs, y :: ys, h => by
+    simp only [eqList, Bool.and_eq_true, List.cons_append] at h ⊢
+    exact ⟨h.1, eqList_append C v w hv xs ys h.2⟩
+
+theorem eqList_dropLast (C : CaseOps) : ∀ xs ys : List Obj,
+    eqList C xs ys = true → eqList C xs.dropLast ys.dropLast = true
+  | [], [], _ => by simp [eqList]
+  | [], _ :: _, h => by simp [eqList] at h
+  | _ :: _, [], h => by simp [eqList] at h
+  | [x], [y], _ => by simp [eqList]
+  | [x], y :: y' :: ys, h => by simp [eqList] at h
+  | x :: x' :: xs, [y], h => by simp [eqList] at h
+  | x :: x' :: xs, y :: y' :: ys, h => by
+    have ih := eqList_dropLast C (x' :: xs) (y' :: ys)
+    simp only [eqList, Bool.and_eq_true] at h ih ⊢
+    simp only [List.dropLast_cons_cons, eqList, Bool.and_eq_true]
+    exact ⟨h.1, ih h.2⟩
+
+theorem eqAttrs_set (C : CaseOps) (cs : List Cmp) (as bs : List Obj) (n : Nat) (v w : Obj)
+    (h : eqAttrs C cs as bs = true) (hv : cmp1 C (cs.getD n .skip) v w = true) :
+    eqAttrs C cs (as.set n v) (bs.set n w) = true := by
+  rw [eqAttrs_iff_get] at h ⊢
+  obtain ⟨h1, h2, h3⟩ := h
+  refine ⟨by simp [h1], by simp [h2], ?_⟩
+  intro m hm
+  by_cases hmn : m = n
+  · subst hmn
+    have ha : m < as.length := by omega
+    have hb : m < bs.length := by omega
+    simpa [List.getD_eq_getElem?_getD, ha, hb] using hv
+  · have := h3 m hm
+    simpa [List.getD_eq_getElem?_getD, List.getElem?_set_ne (Ne.symm hmn)] using this
+
+theorem goodAttrs_getD (C : CaseOps) (cs : List Cmp) (as : List Obj) (g : goodAttrs C cs as = true) (n : Nat)
+    (hn : n < as.length) : good C (as.getD n .none) = true := by
+  apply goodAttrs_good C cs as g
+  simp [List.getD_eq_getElem?_getD, hn]
+
+theorem eqDict_dUpdate (C : CaseOps) (i j : Nat) : ∀ (items es fs : Items),
+    good C (.dict i es) = true → good C (.dict j fs) = true → (∀ e ∈ items, good C e.2 = true) →
+    eqObj C (.dict i es) (.dict j fs) = true →
+    eqObj C (.dict i (dUpdate C items es)) (.dict j (dUpdate C items fs)) = true ∧
+      good C (.dict i (dUpdate C items es)) = true ∧ good C (.dict j (dUpdate C items fs)) = true
+  | [], es, fs, ge, gf, _, h => by simpa [dUpdate] using ⟨h, ge, gf⟩
+  | (k, v) :: items, es, fs, ge, gf, gi, h => by
+    have gv : good C v = true := gi (k, v) (by simp)
+    simp only [dUpdate, List.foldl_cons]
+    have ge' := good_dSet C i k v es ge gv
+    have gf' := good_dSet C j k v fs gf gv
+    have h' : eqObj C (.dict i (dSet C k v es)) (.dict j (dSet C k v fs)) = true := by
+      rw [eqDict_iff_lookup C i j _ _ ge' gf']
+      have h0 := (eqDict_iff_lookup C i j es fs ge gf).mp h
+      intro q
+      rw [lookup_dSet, lookup_dSet]
+      by_cases hq : ckey C k = ckey C q
+      · simpa [hq, optRel] using eqObj_refl C v gv
+      · simpa [hq] using h0 q
+    exact eqDict_dUpdate C i j items _ _ ge' gf' (fun e he => gi e (by simp [he])) h'
+
 end Proofs.Eq
